@@ -620,9 +620,15 @@ class Engine:
         elif k == 'bin':
             op = x.op
             if op in ('&&', '||'):
-                a = self.value_of(E, x.args[0])
-                b = self.value_of(E, x.args[1])
-                T[x.id] = BOOL
+                if x.id in T and T[x.id] is not TOP and len(T[x.id]) == 1:
+                    pass        # fixed by the short-circuit edge taken on this path
+                else:
+                    b = self.value_of(E, x.args[1]) if x.args[1] is not None and x.args[1].id in T else TOP
+                    if b is TOP:
+                        T[x.id] = BOOL
+                    else:
+                        T[x.id] = frozenset(int(bool(e)) if isinstance(e, int) else 1 for e in b)
+                    T[('rhs', x.id)] = fs(1)      # on this path the value is the right operand's
             elif op == ',':
                 T[x.id] = self.value_of(E, x.args[1])
             else:
@@ -925,7 +931,7 @@ class Engine:
         if not temps:
             return temps
         need = self._xblock_need(fn)
-        return {k: v for k, v in temps.items() if k in need}
+        return {k: v for k, v in temps.items() if k in need or (isinstance(k, tuple) and k[1] in need)}
 
     def _xblock_need(self, fn):
         r = getattr(fn, '_xneed', None)
@@ -1012,6 +1018,24 @@ class Engine:
             ec, et = effective(cond, truth)
             if not self.refine(E2, ec, et):
                 continue
+            if term['k'] in ('&&', '||') and 'op' in term:
+                # value-context logical operator: the short-circuit edge fixes its value
+                if term['k'] == '||' and truth:
+                    E2.temps[term['op']] = fs(1)
+                    E2.temps.pop(('rhs', term['op']), None)
+                elif term['k'] == '&&' and not truth:
+                    E2.temps[term['op']] = fs(0)
+                    E2.temps.pop(('rhs', term['op']), None)
+                else:
+                    E2.temps.pop(term['op'], None)
+            # a branch on a logical operator whose value came from its right operand is a branch on that operand
+            es = ec.strip() if ec is not None else None
+            guard = 0
+            while es is not None and es.k == 'bin' and es.op in ('&&', '||') and ('rhs', es.id) in E2.temps and es.args[1] is not None and guard < 4:
+                ec, et = effective(es.args[1], et)
+                self.refine(E2, ec, et)
+                es = ec.strip() if ec is not None else None
+                guard += 1
             E2.log('%s: (%s) is %s' % (cond.where, cond.src(), 'true' if truth else 'false'))
             self.hooks.on_branch(E2, ec, et)
             self.transitions += 1
